@@ -913,10 +913,13 @@ func (p *balloons) deleteBalloon(bln *Balloon) {
 	}
 	p.balloons = remainingBalloons
 	p.forgetCpuClass(bln)
-	p.freeCpus = p.freeCpus.Union(bln.Cpus)
+	freedCpus := bln.Cpus.Clone()
+	p.freeCpus = p.freeCpus.Union(freedCpus)
 	if _, err := p.cpuAllocator.ReleaseCpus(&bln.Cpus, bln.Cpus.Size(), bln.Def.AllocatorPriority.Value().Option()); err != nil {
 		log.Warnf("failed to release CPUs %q of balloon %s[%d]: %v", bln.Cpus, bln.Def.Name, bln.Instance, err)
 	}
+	// CPUs of the deleted balloon are idle again, share them.
+	p.updatePinning(p.shareIdleCpus(freedCpus, cpuset.New())...)
 }
 
 // freeBalloon clears a balloon and deletes it if allowed.
@@ -968,6 +971,8 @@ func (p *balloons) fillableBalloonInstances(blnDef *BalloonDef, fm FillMethod, c
 		}
 		undoFuncs = append(undoFuncs, func() {
 			p.freeCpus = p.freeCpus.Union(newBln.Cpus)
+			// CPUs of the abandoned balloon are idle again, share them.
+			p.updatePinning(p.shareIdleCpus(newBln.Cpus, cpuset.New())...)
 		})
 		if newBln.MaxAvailMilliCpus(p.freeCpus) < reqMilliCpus {
 			// New balloon cannot be inflated to fit new
